@@ -311,3 +311,91 @@ Theorem ypipeline_denotes ops : forall i l, Denotes i l -> Denotes (ybuild_all o
 Proof.
   induction ops as [|o r IH]; intros i l D; [exact D|]. cbn [ybuild_all ylist_all]. apply IH. apply yop_denotes. exact D.
 Qed.
+
+(* ---- selectMany whose selector returns a LAZY group -------------------------------------
+   the group is an iterator of its own; selectMany takes one element from its source,
+   applies the selector once and then hands the group's elements on one at a time: its
+   demand on the group is exactly what the consumer takes *)
+Lemma selectmanyg_ends g i dp dt : EndsD i dp dt -> EndsD (SelectManyG g i) dp dt.
+Proof. intros H s. destruct (H s) as [fu E]. exists (S fu). cbn [next]. rewrite E. reflexivity. Qed.
+
+Lemma selectmanyg_yield g i x i1 dp1 dt1 v j dp2 dt2 :
+  YieldsD i x i1 dp1 dt1 -> YieldsD (Chain (gsel_it g x) (SelectManyG g i1)) v j dp2 dt2 ->
+  YieldsD (SelectManyG g i) v j (dp1 + dp2) (dt1 + 1 + dt2).
+Proof.
+  intros H H2 s. destruct (yields_at _ _ _ _ _ H s) as [f1 F1].
+  destruct (yields_at _ _ _ _ _ H2 (tick (plus_st s dp1 dt1))) as [f2 F2].
+  exists (S (Nat.max f1 f2)). cbn [next]. rewrite F1 by lia. rewrite F2 by lia.
+  rewrite tick_plus, plus_st_plus. reflexivity.
+Qed.
+
+Theorem selectmanyg_lazy g i x i1 dp1 dt1 l gi dp2 dt2 : l <> [] ->
+  YieldsD i x i1 dp1 dt1 -> StepsD (gsel_it g x) l dp2 dt2 gi ->
+  StepsD (SelectManyG g i) l (dp1 + dp2) (dt1 + 1 + dt2) (Chain gi (SelectManyG g i1)).
+Proof.
+  intros NE H HS. destruct l as [|v r]; [congruence|].
+  destruct HS as (g1 & a & b & c & d & Y & R & -> & ->).
+  pose proof (selectmanyg_yield g i x i1 dp1 dt1 v _ a b H (chain_yields _ (SelectManyG g i1) _ _ _ _ Y)) as Y1.
+  pose proof (chain_steps (SelectManyG g i1) r _ _ _ _ R) as R1.
+  cbn. exists (Chain g1 (SelectManyG g i1)), (dp1 + a), (dt1 + 1 + b), c, d. repeat split; try assumption; lia.
+Qed.
+
+(* a group that is a second instrumented source: the first n results cost one element of the outer
+   source, one application of the selector and exactly n elements of the group *)
+Corollary selectmanyg_host k2 i x i1 dp1 dt1 n : n <> 0 -> YieldsD i x i1 dp1 dt1 ->
+  StepsD (SelectManyG (GHost k2) i) (src_prefix k2 n) (dp1 + n) (dt1 + 1 + 0)
+         (Chain (Src (k2 + Z.of_nat n)) (SelectManyG (GHost k2) i1)).
+Proof.
+  intros NZ H. apply (selectmanyg_lazy _ _ x); [|exact H|].
+  - intro E. apply (f_equal (@length val)) in E. rewrite src_prefix_length in E. cbn in E. congruence.
+  - cbn [gsel_it]. apply src_steps.
+Qed.
+
+(* ---- groupBy's aggregator protocol ------------------------------------------------------ *)
+Definition g_succeeds (a : gagg) (g : val * list val) : Prop := exists r, gapply a (VList false (snd g)) = Ok r.
+Definition g_entry (a : gagg) (g : val * list val) : val :=
+  VList false [fst g; match gapply a (VList false (snd g)) with Ok r => r | _ => VNull end].
+
+(* an aggregator that works on every value list: entry [key, aggregator(values)] per group, the fallback never matters *)
+Lemma gagg_new_style a : forall gs allow, Forall (g_succeeds a) gs ->
+  gagg_run a gs None allow = Some (map (g_entry a) gs, None).
+Proof.
+  induction gs as [|[k vs] rest IH]; intros allow F; [reflexivity|].
+  inversion F as [|? ? [r R] F']; subst. cbn [gagg_run snd] in *. rewrite R.
+  rewrite (IH _ F'). cbn [map]. unfold g_entry at 2. cbn [fst snd]. rewrite R. reflexivity.
+Qed.
+
+Lemma looks_legacy_two r vs : length vs <> 2 -> looks_legacy r vs = false.
+Proof.
+  intros N. destruct vs as [|x [|y [|z t]]]; cbn in *; try congruence;
+    destruct r as [| | |m [|r0 [|r1 [|r2 t2]]]| |]; reflexivity.
+Qed.
+
+(* a successful call on a group that does not have exactly two values ends the old-style fallback for good *)
+Lemma gagg_flag_cleared a k vs rest allow r : gapply a (VList false vs) = Ok r -> length vs <> 2 ->
+  gagg_run a ((k, vs) :: rest) None allow = gagg_run a ((k, vs) :: rest) None false.
+Proof.
+  intros R N. cbn [gagg_run]. rewrite R. rewrite (looks_legacy_two r vs N), andb_false_r. reflexivity.
+Qed.
+
+(* without the fallback: the entries of the groups before the first failing one, then that failure *)
+Lemma gagg_no_fallback a : forall gs1 k vs rest f, Forall (g_succeeds a) gs1 ->
+  gapply a (VList false vs) = Err f ->
+  gagg_run a (gs1 ++ (k, vs) :: rest) None false = Some (map (g_entry a) gs1, Some f).
+Proof.
+  induction gs1 as [|[k1 v1] r1 IH]; intros k vs rest f F E.
+  - cbn [app gagg_run map]. rewrite E. destruct (g_caught f); reflexivity.
+  - inversion F as [|? ? [r R] F']; subst. cbn [app gagg_run snd] in *. rewrite R. cbn [andb].
+    rewrite (IH _ _ _ _ F' E). cbn [map]. unfold g_entry at 2. cbn [fst snd]. rewrite R. reflexivity.
+Qed.
+
+(* once a failure is recorded, the only error that can end the sequence is that FIRST failure *)
+Lemma gagg_first_failure a f : forall gs allow o e, gagg_run a gs (Some f) allow = Some (o, Some e) -> e = f.
+Proof.
+  induction gs as [|[k vs] rest IH]; intros allow o e H; cbn [gagg_run] in H; [congruence|].
+  destruct allow; [|congruence].
+  destruct (gapply a (VList false [k; VList false vs])) as [r| | |]; try congruence.
+  destruct (sized2 r); [|congruence].
+  destruct (gagg_run a rest (Some f) true) as [[o1 e1]|] eqn:G; [|congruence].
+  inversion H; subst. exact (IH _ _ _ G).
+Qed.
